@@ -2,18 +2,32 @@
    Line:  10 sorted hasw [xs] [ws] nq { q status result }* iqr_status iqr unmodified
      sorted, hasw : the Sorted flag and whether Weights is non-nil ([ws] is empty otherwise)
      status       : 0 returned, 2 panicked
-     unmodified   : 1 when Xs, Weights and Sorted are bit-for-bit what they were before the calls *)
+     unmodified   : 1 when Xs, Weights and Sorted are bit-for-bit what they were before the calls
+   History line:  10 2 nsteps { sorted hasw [xs] [ws] nq { q status result }* iqr_status iqr unmodified }*
+     (the second integer of a plain line is the Sorted flag, 0 or 1; 2 announces a history)
+     ONE Sample whose backing arrays are overwritten IN PLACE between the steps; each step records
+     the values current at that moment and what Quantile/IQR returned then.  Quantile is a pure
+     function of the current values, so every step must pass the plain check on its own. *)
 From MM Require Import Base.Num Base.GASort Model.Sample Model.Quantile.
 From Coq Require Import Qround.
 Local Open Scope Q_scope.
 
 Definition p_q : parser (Q * Z * xreal) := do q <- pQ; do st <- pZ; do r <- pX; pret (q, st, r).
 
-Definition p_line : parser (bool * bool * list Q * list Q * list (Q * Z * xreal) * Z * xreal * Z) :=
-  do tag <- pZ; if negb (tag =? 10)%Z then (fun _ => None) else
-  do sorted <- pbool; do hasw <- pbool; do xs <- plist pQ; do ws <- plist pQ;
+Definition c10case := (bool * bool * list Q * list Q * list (Q * Z * xreal) * Z * xreal * Z)%type.
+
+(* the body of a case, the Sorted flag [k] already read *)
+Definition p_body (k : Z) : parser c10case :=
+  do hasw <- pbool; do xs <- plist pQ; do ws <- plist pQ;
   do qs <- plist_any p_q; do ist <- pZ; do iv <- pX; do unm <- pZ;
-  pend (sorted, hasw, xs, ws, qs, ist, iv, unm).
+  pret (negb (k =? 0)%Z, hasw, xs, ws, qs, ist, iv, unm).
+
+(* (is a history, the steps); a plain line is a single step *)
+Definition p_line : parser (bool * list c10case) :=
+  do tag <- pZ; if negb (tag =? 10)%Z then (fun _ => None) else
+  do k <- pZ;
+  if (k =? 2)%Z then (do steps <- plist_any (do k' <- pZ; p_body k'); pend (true, steps))
+  else (do c <- p_body k; pend (false, [c])).
 
 (* ---------- tolerances ---------- *)
 Definition q_range (xs : list Q) : Q := match xs with [] => 0 | x :: _ => Qlmax x xs - Qlmin x xs end.
@@ -21,6 +35,22 @@ Definition q_range (xs : list Q) : Q := match xs with [] => 0 | x :: _ => Qlmax 
    interpolation a + frac*(b-a) a few more; the result moves by at most |dn| * range *)
 Definition tol_unw (xs : list Q) : Q :=
   (8 * Qofnat (length xs) + 16) * ulp53 * q_range xs + 16 * ulp53 * Qmaxabs xs.
+
+(* weighted: the float target q*W and the N running subtractions move the target by at most
+   (N+4) * 2^-52 * W: the borderline window of the weighted scan *)
+Definition tol_wtarget (n : nat) (W : Q) : Q := (Qofnat n + 4) * (1 # (2 ^ 52)%positive) * W.
+(* IQR = Q(0.75) - Q(0.25): unweighted, two interpolated values and one subtraction; weighted,
+   both quartiles are sample values and only the subtraction rounds *)
+Definition tol_iqr_unw (xs : list Q) : Q := 2 * tol_unw xs + 4 * ulp53 * Qmaxabs xs.
+Definition tol_iqr_w (xs : list Q) : Q := Qred (4 * ulp53 * Qmaxabs xs).
+
+(* the Sorted flag may only be set on ascending data (precondition of the type; the harness
+   refuses such a case): a line that violates it is malformed *)
+Fixpoint asc_b (l : list Q) : bool :=
+  match l with
+  | x :: (y :: _) as t => Qle_bool x y && asc_b t
+  | _ => true
+  end.
 
 (* ---------- float exactness (weighted scan) ---------- *)
 Definition is_pow2 (p : positive) : bool := match pos_odd_part p 0 with (xH, _) => true | _ => false end.
@@ -53,6 +83,7 @@ Definition T_INTERP := 1%Z.  Definition T_CLAMPLO := 2%Z.  Definition T_CLAMPHI 
 Definition T_QLE0 := 8%Z.    Definition T_QGE1 := 16%Z.    Definition T_WEIGHTED := 32%Z.
 Definition T_SORTED := 64%Z. Definition T_BREAK := 128%Z.  Definition T_WLAST := 256%Z.
 Definition T_BORDER := 512%Z. Definition T_WFIRST := 1024%Z.
+Definition T_HISTORY := 2048%Z.
 
 Definition unw_tag (n : nat) (q : Q) : Z :=
   let h := quantile_pos third_f n q in
@@ -82,7 +113,7 @@ Definition check_q (s0 s : sample) (sorted_ps : list (Q * Q)) (W : Q) (wex : boo
            if rv_eq r st obs then (0%Z, tg, r)
            else if wex && fits53 t0 && targets_exact (map snd sorted_ps) t0 then (2%Z, tg, r)
            else
-             let e := (Qofnat (length sorted_ps) + 4) * (1 # (2 ^ 52)%positive) * W in
+             let e := tol_wtarget (length sorted_ps) W in
              let alt t := match wscan sorted_ps t None with Some v => RVal v | None => RPanic end in
              if rv_eq (alt (t0 - e)) st obs || rv_eq (alt (t0 + e)) st obs then (1%Z, Z.lor tg T_BORDER, r)
              else (2%Z, tg, r)
@@ -100,11 +131,42 @@ Fixpoint run_qs (s0 s : sample) (ps : list (Q * Q)) (W : Q) (wex : bool) (tolu :
       end
   end.
 
-Definition check_C10 (line : list Z) : list Z :=
-  match p_line line with
-  | None => verdict V_MALFORMED 0 (-1) []
-  | Some ((sorted, hasw, xs, ws, qs, ist, iv, unm), _) =>
-      if hasw && negb (length ws =? length xs)%nat then verdict V_MALFORMED 0 (-1) [] else
+(* the candidate values of one weighted quartile: the scan at the exact target and at both ends
+   of the borderline window *)
+Definition wcands (ps : list (Q * Q)) (W t : Q) : list (option Q) :=
+  let e := tol_wtarget (length ps) W in
+  wscan ps t None :: wscan ps (t - e) None :: wscan ps (t + e) None :: nil.
+
+(* the weighted float scan is exact for both quartile targets *)
+Definition wiqr_exact (ps : list (Q * Q)) (W : Q) (wex : bool) : bool :=
+  wex && fits53 (W * (3 # 4)) && fits53 (W * (1 # 4)) && targets_exact (map snd ps) (W * (3 # 4)) && targets_exact (map snd ps) (W * (1 # 4)).
+
+(* IQR = Quantile(0.75) - Quantile(0.25);  [s'] is the sorted sample, iqr s' = iqr s (iqr_sort_first) *)
+Definition iqr_ok (s' : sample) (xs : list Q) (ps : list (Q * Q)) (W : Q) (wex : bool) (ist : Z) (iv : xreal) : bool :=
+  let ir := iqr s' in
+  match s_ws s' with
+  | None => rv_close (tol_iqr_unw xs) ir ist iv
+  | Some _ =>
+      let tolw := tol_iqr_w xs in
+      rv_close tolw ir ist iv ||
+      (* weighted: both quartiles are sample values; accept the borderline choices *)
+      negb (wiqr_exact ps W wex) && (ist =? 0)%Z &&
+      match iv with
+      | XFin v =>
+          let c1 := wcands ps W (W * (1 # 4)) in
+          existsb (fun a => existsb (fun b => match a, b with
+                                              | Some a', Some b' => within tolw (a' - b') v
+                                              | _, _ => false end) c1)
+                  (wcands ps W (W * (3 # 4)))
+      | _ => false end
+  end.
+
+(* one case / one step of a history: (code, tag, pos, diag) *)
+Definition check_case (c : c10case) : Z * Z * Z * list Z :=
+  match c with
+  | (sorted, hasw, xs, ws, qs, ist, iv, unm) =>
+      if (if hasw then negb (length ws =? length xs)%nat else negb (length ws =? 0)%nat) then (V_MALFORMED, 0%Z, (-1)%Z, []) else
+      if sorted && negb (asc_b xs) then (V_MALFORMED, 0%Z, (-1)%Z, []) else
       let s := mkSample xs (if hasw then Some ws else None) sorted in
       let s' := if sorted then s else sample_sort s in
       let ps := match s_ws s' with Some w => combine (s_xs s') w | None => [] end in
@@ -115,29 +177,31 @@ Definition check_C10 (line : list Z) : list Z :=
       match run_qs s s' ps W wex tolu qs 0%Z 0%Z 0%Z with
       | (code, tag, pos, diag) =>
           let tag' := match qs with [] => 0%Z | _ => Z.lor tag base end in
-          if (code =? 2)%Z then verdict V_MISMATCH tag' pos diag
-          else if negb (unm =? 1)%Z then verdict V_MISMATCH tag' (-2) [9%Z]
-          else
-            (* IQR = Quantile(0.75) - Quantile(0.25) *)
-            let ir := iqr s' in    (* = iqr s  (iqr_sort_first) *)
-            let tolw := Qred (4 * ulp53 * Qmaxabs xs) in
-            let iok := match s_ws s with
-                       | None => rv_close (2 * tolu + 4 * ulp53 * Qmaxabs xs) ir ist iv
-                       | Some _ =>
-                           rv_close tolw ir ist iv ||
-                           (* weighted: both quartiles are sample values; accept the borderline choices *)
-                           negb (wex && fits53 (W * (3 # 4)) && fits53 (W * (1 # 4)) && targets_exact (map snd ps) (W * (3 # 4)) && targets_exact (map snd ps) (W * (1 # 4))) &&
-                           match iv with
-                           | XFin v =>
-                               let e := (Qofnat (length ps) + 4) * (1 # (2 ^ 52)%positive) * W in
-                               let cands t := wscan ps t None :: wscan ps (t - e) None :: wscan ps (t + e) None :: nil in
-                               existsb (fun a => existsb (fun b => match a, b with
-                                                                   | Some a', Some b' => within tolw (a' - b') v
-                                                                   | _, _ => false end) (cands (W * (1 # 4))))
-                                       (cands (W * (3 # 4)))
-                           | _ => false end
-                       end in
-            if iok then verdict code tag' (-1) []
-            else verdict V_MISMATCH tag' (-3) (match ir with RVal e => 1%Z :: qdiag e | RNaN => [0%Z] | RPanic => [2%Z] end)
+          if (code =? 2)%Z then (V_MISMATCH, tag', pos, diag)
+          else if negb (unm =? 1)%Z then (V_MISMATCH, tag', (-2)%Z, [9%Z])
+          else if iqr_ok s' xs ps W wex ist iv then (code, tag', (-1)%Z, [])
+          else (V_MISMATCH, tag', (-3)%Z, match iqr s' with RVal e => 1%Z :: qdiag e | RNaN => [0%Z] | RPanic => [2%Z] end)
       end
+  end.
+
+(* a history: every step is checked on its own; stop at the first step that is not accepted:
+   pos = index of that step, diag = the step's own position and diagnostics *)
+Fixpoint run_steps (cs : list c10case) (i code tag : Z) : Z * Z * Z * list Z :=
+  match cs with
+  | [] => (code, tag, (-1)%Z, [])
+  | c :: rest =>
+      match check_case c with
+      | (v, t, p, d) =>
+          if (v =? 0)%Z || (v =? 1)%Z then run_steps rest (i + 1)%Z (Z.max code v) (Z.lor tag t)
+          else (v, Z.lor tag t, i, p :: d)
+      end
+  end.
+
+Definition check_C10 (line : list Z) : list Z :=
+  match p_line line with
+  | None => verdict V_MALFORMED 0 (-1) []
+  | Some ((false, [c]), _) => match check_case c with (v, t, p, d) => verdict v t p d end
+  | Some ((false, _), _) => verdict V_MALFORMED 0 (-1) []
+  | Some ((true, []), _) => verdict V_OK 0 (-1) []      (* a history without steps: trivial (tag 0) *)
+  | Some ((true, cs), _) => match run_steps cs 0%Z 0%Z T_HISTORY with (v, t, p, d) => verdict v t p d end
   end.
